@@ -130,8 +130,8 @@ Record hstep := {
 
 Definition parse_cookie_facts (v : value) : option cookie_facts :=
   match v with
-  | VL [VB c; VZ _; VZ okz; VB a; VB b] =>
-      Some {| cf_bytes := c; cf_keys := if zb okz then Some (a, b) else None |}
+  | VL [VB c; VZ kid; VZ okz; VB a; VB b] =>
+      Some {| cf_bytes := c; cf_keyid := kid; cf_keys := if zb okz then Some (a, b) else None |}
   | _ => None
   end.
 Fixpoint parse_facts (l : list value) : option (list cookie_facts) :=
@@ -145,18 +145,19 @@ Definition parse_step (sv ov : value) : option hstep :=
   match sv, ov with
   | VL [VZ _; VZ action; VZ _],
     VL [VZ sent; VB req; VB rnonce; VB rct; VZ openable; VZ fwd; VZ nrep; VB rep; VB pnonce; VB pct;
-        VZ authok; VB plain; VL cookiesv; VZ intact; VZ cerr; VZ ked; VL poolv; VB k1; VB k2] =>
-      match parse_facts cookiesv, getBs poolv with
-      | Some cfs, Some pool =>
+        VZ authok; VB plain; VL cookiesv; VZ intact; VZ cerr; VZ ked; VL poolv; VB k1; VB k2; VZ curk; VL forgedv] =>
+      match parse_facts cookiesv, getBs poolv, getBs forgedv with
+      | Some cfs, Some pool, Some forged =>
           Some {| h_action := action;
                   h_obs := {| so_sent := zb sent; so_req := req; so_openable := zb openable;
                               so_forwarded := 0 <? fwd; so_served := 0 <? nrep; so_reply := rep;
                               so_reply_auth := zb authok; so_reply_cookies := cfs; so_intact := zb intact;
-                              so_rekeyed := 0 <? ked; so_pool_after := pool; so_c2s := k1; so_s2c := k2 |};
+                              so_rekeyed := 0 <? ked; so_pool_after := pool; so_c2s := k1; so_s2c := k2;
+                              so_cur_key := curk; so_forged := forged |};
                   h_req_nonce := rnonce; h_req_ct := rct; h_nrep := nrep;
                   h_rep_nonce := pnonce; h_rep_ct := pct; h_rep_plain := plain;
                   h_client_err := zb cerr |}
-      | _, _ => None
+      | _, _, _ => None
       end
   | _, _ => None
   end.
@@ -210,6 +211,8 @@ Definition step_agree (pre : client) (h : hstep) : bool :=
                          let sl2 := seal_from (so_reply_auth o) (s2c d) (h_rep_nonce h) (h_rep_plain h) rad (h_rep_ct h) in
                          if (zlen cs =? reply_count (server_issue_count dq) (zlen quid) (zlen c0)) &&
                             bseq cs (map cf_bytes (so_reply_cookies o)) &&
+                            (* key := provider.Current(): every new cookie names the current key *)
+                            forallb (fun c => cf_keyid c =? so_cur_key o) (so_reply_cookies o) &&
                             match obind (new_response cs (s2c d) quid)
                                     (fun rp => encode_packet sl2 (firstn 48 rep) rp (h_rep_nonce h)) with
                             | Ok b => beq b rep
@@ -287,12 +290,12 @@ Definition glue_srv (a o : list value) : option verdict :=
   match o with
   | [VL [VZ 0]] => Some (relational true true)          (* the request could not be encoded: nothing sent *)
   | [VL [VZ 99]] => Some (relational false false)       (* the process died *)
-  | [VL [VZ 1; VB req; VZ nrep; VB rep; VB pnonce; VB pct; VZ authok; VB plain; VL cookiesv; VB k1; VB k2]] =>
+  | [VL [VZ 1; VB req; VZ nrep; VB rep; VB pnonce; VB pct; VZ authok; VB plain; VL cookiesv; VB k1; VB k2; VZ curk]] =>
       match parse_facts cookiesv with
       | None => None
       | Some cfs =>
           let served := 0 <? nrep in
-          let oracle := (nrep =? 1) && reply_ok req rep (zb authok) cfs k1 k2 (values_or_nil req) in
+          let oracle := (nrep =? 1) && reply_ok req rep (zb authok) cfs k1 k2 (values_or_nil req) curk in
           let agree :=
             match decode_packet req, plain_cookies (S (length plain)) plain 0 [] with
             | Ok dq, Ok cs =>
@@ -301,7 +304,7 @@ Definition glue_srv (a o : list value) : option verdict :=
                     let rad := firstn (length rep - Z.to_nat (24 + pad4 (zlen plain + 16))) rep in
                     let sl2 := seal_from (zb authok) k2 pnonce plain rad pct in
                     served && (zlen cs =? reply_count (server_issue_count dq) (zlen quid) (zlen c0)) &&
-                    bseq cs (map cf_bytes cfs) &&
+                    bseq cs (map cf_bytes cfs) && forallb (fun c => cf_keyid c =? curk) cfs &&
                     match obind (new_response cs k2 quid) (fun rp => encode_packet sl2 (firstn 48 rep) rp pnonce) with
                     | Ok b => beq b rep
                     | _ => false
